@@ -207,9 +207,15 @@ func (ex *Exec) invoke(fr *Frame, c *ssa.CallCommon, recv Val, args []Val, st *S
 	// value on this path), the call is resolved statically to the concrete method
 	if rt, ok := recv.(Scalar); ok {
 		if h, a := splitApp(rt.T.S); h == "mk-iface" && len(a) == 2 {
-			if id, ok := litVal(a[0]); ok && id >= 1 && int(id) <= len(ex.vc.typeByID) {
+			if id, nilable, ok := soleDyn(a[0]); ok && id >= 1 && int(id) <= len(ex.vc.typeByID) {
 				dt := ex.vc.typeByID[id-1]
 				if m := ex.prog.SSA.LookupMethod(dt, c.Method.Pkg(), c.Method.Name()); m != nil && (len(m.Blocks) > 0 || ex.prog.Contracts.Funcs[m.String()] != nil) {
+					if nilable {
+						// the value is nil or of that one type: a call on nil panics, so past the check it is of the type
+						o := ex.vc.oblige("nil", fr.name("nil:invoke "+c.Method.Name()), reach, Neq(IfDyn(rt.T), IntLit(0)), ex.where(pos))
+						o.Descr = "method call on nil interface"
+						ex.vc.assume(Implies(reach, Neq(IfDyn(rt.T), IntLit(0))))
+					}
 					self := ex.unboxIface(rt.T, dt)
 					return ex.callFunc(fr, m, nil, append([]Val{self}, args...), st, reach, pos)
 				}
